@@ -10,7 +10,7 @@ import (
 )
 
 func init() {
-	Register(&PropDef{ID: "C02", Run: runC02})
+	Register(&PropDef{ID: "C02", Run: runC02, Drops: true})
 	Register(&PropDef{ID: "C08", Run: runC08})
 }
 
@@ -102,6 +102,7 @@ func runC02(c *Ctx) {
 	}
 	RunTraffic(c, clients, ops, 0)
 	simrt.WaitQuiescent("traffic-done")
+	c.DisarmDrops()
 	// faults stop; everybody reads again; advance past every call time-out,
 	// slow callee, and the result-retry deadline
 	for _, cl := range clients {
